@@ -5,6 +5,7 @@ package props
 import (
 	"fmt"
 	"sync"
+	"sync/atomic"
 	"testing"
 	"time"
 
@@ -123,3 +124,83 @@ func c18Writers(t *rapid.T) {
 }
 
 func TestC18Writers(t *testing.T) { rapid.Check(t, c18Writers) }
+
+// c18ReadDuringWrite: a reader keeps reading the retained range while one Write larger than the ring is in progress
+// (the backlog stores it in several pieces). Whatever moment the reader catches, a read that succeeds returns the bytes
+// that were written at that offset - never bytes of an earlier lap that a half-done write has not replaced yet.
+func c18ReadDuringWrite(t *rapid.T) {
+	bk := drawBacklog(t, true)
+	if bk.name != "file" && rapid.Bool().Draw(t, "preferFile") {
+		for i := 0; i < 30 && bk.name != "file"; i++ {
+			bk = drawBacklog(t, true)
+		}
+	}
+	bl, cleanup := bk.mk()
+	defer cleanup()
+	defer bl.Close()
+	capacity := int(bk.cap)
+	// first lap: fill the ring once and a bit, so that every slot holds bytes of an earlier lap
+	pre := capacity + rapid.IntRange(1, 5000).Draw(t, "pre")
+	b := make([]byte, pre)
+	fillStream(b, 0)
+	bl.Write(b)
+	wpos := uint64(pre)
+	if rapid.Bool().Draw(t, "slowStore") {
+		backlog.VerifSlowWrite(bl, time.Duration(rapid.SampledFrom([]int{200, 2000}).Draw(t, "us"))*time.Microsecond)
+	}
+	over := capacity + rapid.SampledFrom([]int{1, 777, 4096, capacity/2 + 3}).Draw(t, "over")
+	stop := make(chan struct{})
+	var bad atomic.Value
+	var reads atomic.Int64
+	var wg sync.WaitGroup
+	for r := 0; r < 2; r++ {
+		wg.Add(1)
+		go func(r int) {
+			defer wg.Done()
+			buf := make([]byte, 8192)
+			for i := 0; ; i++ {
+				select {
+				case <-stop:
+					return
+				default:
+				}
+				var o, rp, wp uint64
+				if r == 0 {
+					// offsets spread over the retained range, the newest part included
+					var err error
+					if rp, wp, err = bl.DataRange(); err != nil || wp <= rp {
+						continue
+					}
+					o = rp + (uint64(i*7919) % (wp - rp))
+				} else {
+					// offsets inside the part of the big write that cannot survive (it is longer than the ring): they enter the
+					// range only together with their bytes, or not at all
+					lead := uint64(over - capacity)
+					o = wpos + lead - 1 - uint64(i%int(lead+64))%lead
+				}
+				n, err := bl.ReadAt(buf[:64+i%512], o)
+				if err != nil || n == 0 {
+					continue // overrun in the meantime: a legitimate answer
+				}
+				reads.Add(1)
+				if k := checkStream(buf[:n], o); k >= 0 {
+					bad.Store(fmt.Sprintf("ReadAt(%d) returned %d bytes while a Write of %d bytes (ring %d) was in progress; the byte at offset %d is not the one written there (data range then [%d,%d])", o, n, over, capacity, o+uint64(k), rp, wp))
+					return
+				}
+			}
+		}(r)
+	}
+	d := make([]byte, over)
+	fillStream(d, wpos)
+	bl.Write(d)
+	time.Sleep(2 * time.Millisecond)
+	close(stop)
+	wg.Wait()
+	if m := bad.Load(); m != nil {
+		violation(t, "C18", "read-content:during-write:"+bk.name, "%s", m.(string))
+		return
+	}
+	stats.C.Case(reads.Load() > 0, stats.HashS(fmt.Sprint(bk.name, capacity, pre, over)), "read-during-write:"+bk.name)
+}
+
+func TestC18ReadDuringWrite(t *testing.T) { rapid.Check(t, c18ReadDuringWrite) }
